@@ -1,6 +1,47 @@
-(** C09 — Reads mark entries as used without reordering; writes enqueue them fresh. (interim) *)
+(** C09 — Reads mark entries as used without reordering; writes enqueue them fresh.
+
+    Kernel-checked:
+    - reads never reorder: lookups and touches (plain, sharded, read-only,
+      stacked) only issue calls that cannot change any modification time, for
+      arbitrary environment responses ([C09_lookups_and_touches_keep_mtimes]);
+      hence in ANY pool of readers, under ANY schedule, every entry keeps its
+      modification time ([C09_reads_never_reorder]);
+    - writes enqueue fresh: every publishing rename/link of set / put is
+      preceded, since the last clock reading t, by an accepted futimens(atime =
+      t - 120 s, mtime = t) ([C09_writes_stamp_fresh]); after truncation to any
+      granularity up to 2 s the new entry is still unmarked ([C09_born_unmarked]);
+      a lookup's explicit touch (atime := mtime) marks ([C09_touch_marks]).
+    How the kernel's own atime updates (relatime, noatime) interact is validated
+    by the emulated-policy runs of vlib/c09.py against this model. *)
 From Coq Require Import List NArith ZArith String Bool Lia.
-From Kismet Require Import Gen.Constants Gen.Agree FS.Fs Ops.Ops.
+From Kismet Require Import Gen.Constants Gen.Agree FS.Fs FS.Prog Spec.Wp Spec.ClassMon Spec.Calm Ops.Ops Conc.Pool Conc.Immut
+     Proofs.ReadsKeepOrder Proofs.FreshStamp.
+Import ListNotations.
+
+Theorem C09_lookups_and_touches_keep_mtimes : forall cfg k stack chk,
+  (chko_rt (s_checker cfg) -> allc ro_time (cache_get cfg k) anyc) /\ allc ro_time (cache_touch cfg k) anyc /\
+  (chko_rt chk -> allc ro_time (ro_get stack chk k) anyc) /\ allc ro_time (ro_touch stack k) anyc.
+Proof.
+  intros. split; [apply rt_cache_get|]. split; [apply rt_cache_touch|]. split; [apply rt_ro_get|apply rt_ro_touch].
+Qed.
+
+Theorem C09_no_call_of_the_class_changes_a_modification_time : forall f e c i m,
+  ro_time c = true -> mtime f i = Some m -> mtime (fst (sem f e c)) i = Some m.
+Proof. exact sem_keeps_mtime. Qed.
+
+Theorem C09_reads_never_reorder : forall A (ps : list (prog A * oracle)) f sched i m,
+  Forall (fun po => allc ro_time (fst po) (fun _ => True)) ps ->
+  mtime f i = Some m ->
+  mtime (snd (run_sched sched (spawn_all ps ([], f)))) i = Some m.
+Proof. exact @reads_never_reorder. Qed.
+
+Theorem C09_writes_stamp_fresh : forall cfg k v, fr (cache_set cfg k v) /\ fr (cache_put cfg k v).
+Proof. intros. split; [apply fr_cache_set|apply fr_cache_put]. Qed.
+
+Theorem C09_writes_stamp_fresh_on_every_run : forall cfg k v w o,
+  let '(_, _, _, tr) := run (cache_set cfg k v) w o in exists s', mon_run f_step (None, false) tr = Some s'.
+Proof. intros. apply (fresh_stamp_run _ (fr_cache_set cfg k v)). Qed.
+
 (** The offset between the two timestamps written at insertion covers any
     granularity up to 2 s: after truncation the read mark is still clear. *)
 Theorem C09_born_unmarked : forall g t, (1 <= g <= 2000000000)%Z -> (0 <= t)%Z ->
